@@ -696,6 +696,11 @@ func checkHistory(c CaseHist, which string) (*vkit.Failure, vkit.Meta) {
 				if gp != "" && ref.IsOptionalTag(strings.TrimSuffix(gp, "/")) {
 					continue // a graph that does not lead to END may not have (finished) running when the run returns
 				}
+				if gp != "" && ref.NodeRuns[strings.TrimSuffix(gp, "/")] != 1 {
+					// a graph node that executes several times gets a fresh state each time; which execution's state
+					// object was observed last is not the same in both runs
+					continue
+				}
 				hst := hOwned[gp]
 				if hst == nil {
 					hst = &gkit.GState{} // never observed: equal only if nothing (non-optional) was counted
